@@ -290,12 +290,6 @@ Proof.
 Qed.
 
 (** * The view round-trip *)
-(** The implementation's proto differs from [view_to_proto v] only in the iteration order of
-    the two hash-ordered collections. *)
-Definition with_hash_order (h : list bytes) (w : list (bytes * bytes)) (p : p_view) : p_view :=
-  mk_pview h (pv_wc_commit_id p) w (pv_bookmarks p) (pv_local_tags p) (pv_remote_views p)
-           (pv_git_refs p) (pv_git_head_legacy p) (pv_git_head p) (pv_migrated p) (pv_git_heads p).
-
 Lemma named_targets_roundtrip (m : list (bytes * target)) :
   targets_oddb m = true ->
   rmapM named_target_from_proto (map named_target_to_proto m) = Ok m.
@@ -379,15 +373,6 @@ Lemma absent_local_not_roundtrip :
 Proof. split; reflexivity. Qed.
 
 (** * The operation round-trip *)
-Definition with_attr_order (a : list (bytes * bytes)) (p : p_operation) : p_operation :=
-  mk_pop (po_view_id p) (po_parents p)
-         (match po_metadata p with
-          | Some m => Some (mk_pmd (pm_start m) (pm_end m) (pm_description m) (pm_hostname m)
-                                   (pm_username m) (pm_is_snapshot m) (pm_workspace m) a)
-          | None => None
-          end)
-         (po_predecessors p) (po_stores p).
-
 Lemma hash_ids_ok n (l : list id) :
   forallb (len_is n) l = true -> rmapM (hash_id_from_proto n) l = Ok l.
 Proof.
@@ -472,38 +457,6 @@ Proof.
     first [ apply c_bytes_ok | apply c_list_ok, c_bytes_ok | apply c_metadata_ok
           | apply c_option_ok, c_map_ok, c_list_ok, c_bytes_ok ].
 Qed.
-
-(** The domain of the encoding theorems (every byte below 256, every length below 2^64,
-    timestamps within i64 / i32), as a boolean. *)
-Definition lenb {A} (l : list A) : bool := N.of_nat (length l) <? 2 ^ 64.
-Definition bytes_wfb (b : bytes) : bool := forallb byteb b && lenb b.
-Definition target_wfb (t : target) : bool :=
-  forallb (fun o => match o with Some b => bytes_wfb b | None => true end) t && lenb t.
-Definition map_wfb {V} (f : V -> bool) (m : list (bytes * V)) : bool :=
-  forallb (fun kv => bytes_wfb (fst kv) && f (snd kv)) m && lenb m.
-Definition remote_ref_wfb (r : remote_ref) : bool := target_wfb (rr_target r).
-Definition remote_view_wfb (r : remote_view) : bool :=
-  map_wfb remote_ref_wfb (rv_bookmarks r) && map_wfb remote_ref_wfb (rv_tags r).
-Definition view_enc_wfb (v : view) : bool :=
-  forallb bytes_wfb (v_head_ids v) && lenb (v_head_ids v)
-  && map_wfb target_wfb (v_local_bookmarks v) && map_wfb target_wfb (v_local_tags v)
-  && map_wfb remote_view_wfb (v_remote_views v)
-  && map_wfb target_wfb (v_git_refs v) && map_wfb target_wfb (v_git_heads v)
-  && map_wfb bytes_wfb (v_wc_commit_ids v).
-Definition timestamp_wfb (t : timestamp) : bool :=
-  ((- 2 ^ 63 <=? ts_millis t) && (ts_millis t <? 2 ^ 63)
-   && (- 2 ^ 31 <=? ts_tz t) && (ts_tz t <? 2 ^ 31))%Z.
-Definition op_enc_wfb (o : operation) : bool :=
-  let m := op_meta o in
-  bytes_wfb (op_view_id o) && forallb bytes_wfb (op_parents o) && lenb (op_parents o)
-  && timestamp_wfb (md_start m) && timestamp_wfb (md_end m)
-  && bytes_wfb (md_description m) && bytes_wfb (md_hostname m) && bytes_wfb (md_username m)
-  && match md_workspace m with Some w => bytes_wfb w | None => true end
-  && map_wfb bytes_wfb (md_attributes m)
-  && match op_predecessors o with
-     | Some p => map_wfb (fun l => forallb bytes_wfb l && lenb l) p
-     | None => true
-     end.
 
 Lemma bytes_wfb_spec b : bytes_wfb b = true -> cwf c_bytes b.
 Proof.
@@ -609,4 +562,135 @@ Proof.
   intros Hc x y Wx Wy E. destruct (bytes_eqb (enc c x) (enc c y)) eqn:B.
   - left. apply bytes_eqb_spec in B. apply (codec_inj _ Hc); assumption.
   - right. split; [|exact E]. intro E'. apply bytes_eqb_spec in E'. congruence.
+Qed.
+
+(** * Boolean equalities reflect equality *)
+Lemma target_eqb_spec a b : target_eqb a b = true <-> a = b.
+Proof. apply list_eqb_spec, option_eqb_spec, bytes_eqb_spec. Qed.
+
+Lemma rstate_eqb_spec a b : rstate_eqb a b = true <-> a = b.
+Proof. destruct a, b; cbn; split; intro H; try discriminate; reflexivity. Qed.
+
+Lemma remote_ref_eqb_spec a b : remote_ref_eqb a b = true <-> a = b.
+Proof.
+  destruct a as [a1 a2], b as [b1 b2]. unfold remote_ref_eqb. cbn [rr_target rr_state].
+  rewrite andb_true_iff, target_eqb_spec, rstate_eqb_spec.
+  split; [intros [-> ->]; reflexivity | intros [= -> ->]; auto].
+Qed.
+
+Lemma map_eqb_spec {V} (e : V -> V -> bool) :
+  (forall x y, e x y = true <-> x = y) -> forall a b, map_eqb e a b = true <-> a = b.
+Proof. intro H. apply list_eqb_spec, pair_eqb_spec; [apply bytes_eqb_spec | exact H]. Qed.
+
+Lemma remote_view_eqb_spec a b : remote_view_eqb a b = true <-> a = b.
+Proof.
+  destruct a as [a1 a2], b as [b1 b2]. unfold remote_view_eqb. cbn [rv_bookmarks rv_tags].
+  rewrite andb_true_iff, !(map_eqb_spec _ remote_ref_eqb_spec).
+  split; [intros [-> ->]; reflexivity | intros [= -> ->]; auto].
+Qed.
+
+Lemma view_eqb_spec a b : view_eqb a b = true <-> a = b.
+Proof.
+  destruct a as [a1 a2 a3 a4 a5 a6 a7], b as [b1 b2 b3 b4 b5 b6 b7]. unfold view_eqb.
+  cbn [v_head_ids v_local_bookmarks v_local_tags v_remote_views v_git_refs v_git_heads
+       v_wc_commit_ids].
+  rewrite !andb_true_iff, (list_eqb_spec _ bytes_eqb_spec), !(map_eqb_spec _ target_eqb_spec),
+    (map_eqb_spec _ remote_view_eqb_spec), (map_eqb_spec _ bytes_eqb_spec).
+  split; [intros [[[[[[-> ->] ->] ->] ->] ->] ->]; reflexivity | intros [= -> -> -> -> -> -> ->]; tauto].
+Qed.
+
+Lemma timestamp_eqb_spec a b : timestamp_eqb a b = true <-> a = b.
+Proof.
+  destruct a as [a1 a2], b as [b1 b2]. unfold timestamp_eqb. cbn [ts_millis ts_tz].
+  rewrite andb_true_iff, !Z.eqb_eq. split; [intros [-> ->]; reflexivity | intros [= -> ->]; auto].
+Qed.
+
+Lemma bool_eqb_spec a b : Bool.eqb a b = true <-> a = b.
+Proof. destruct a, b; cbn; split; intro H; try discriminate; reflexivity. Qed.
+
+Lemma metadata_eqb_spec a b : metadata_eqb a b = true <-> a = b.
+Proof.
+  destruct a as [a1 a2 a3 a4 a5 a6 a7 a8], b as [b1 b2 b3 b4 b5 b6 b7 b8]. unfold metadata_eqb.
+  cbn [md_start md_end md_description md_hostname md_username md_is_snapshot md_workspace
+       md_attributes].
+  rewrite !andb_true_iff, !timestamp_eqb_spec, !bytes_eqb_spec, bool_eqb_spec,
+    (option_eqb_spec _ bytes_eqb_spec), (map_eqb_spec _ bytes_eqb_spec).
+  split; [intros [[[[[[[-> ->] ->] ->] ->] ->] ->] ->]; reflexivity
+         | intros [= -> -> -> -> -> -> -> ->]; tauto].
+Qed.
+
+Lemma operation_eqb_spec a b : operation_eqb a b = true <-> a = b.
+Proof.
+  destruct a as [a1 a2 a3 a4], b as [b1 b2 b3 b4]. unfold operation_eqb.
+  cbn [op_view_id op_parents op_meta op_predecessors].
+  rewrite !andb_true_iff, bytes_eqb_spec, (list_eqb_spec _ bytes_eqb_spec), metadata_eqb_spec,
+    (option_eqb_spec _ (map_eqb_spec _ (list_eqb_spec _ bytes_eqb_spec))).
+  split; [intros [[[-> ->] ->] ->]; reflexivity | intros [= -> -> -> ->]; tauto].
+Qed.
+
+Lemma perr_eqb_spec a b : perr_eqb a b = true <-> a = b.
+Proof.
+  destruct a, b; cbn; try (split; [discriminate | intros [=]]).
+  - rewrite andb_true_iff, !N.eqb_eq. split; [intros [-> ->]; reflexivity | intros [= -> ->]; auto].
+  - rewrite Z.eqb_eq. split; [intros ->; reflexivity | intros [= ->]; auto].
+  - rewrite N.eqb_eq. split; [intros ->; reflexivity | intros [= ->]; auto].
+Qed.
+
+(** * What the checker means *)
+Lemma eqb_iff (a b : bool) : Bool.eqb a b = true <-> (a = true <-> b = true).
+Proof. destruct a, b; cbn; intuition discriminate. Qed.
+
+Theorem okb_spec c : okb c = true <-> case_ok c.
+Proof.
+  destruct c as [v w via stored read hashed vid vid2 wid ih | p read
+                | o w stored read hashed oid oid2 wid ih | p read]; cbn [okb case_ok].
+  - rewrite !andb_true_iff, bytes_eqb_spec, eqb_iff, bytes_eqb_spec, view_eqb_spec.
+    unfold view_res_eqb, wf_view.
+    rewrite !orb_true_iff, !negb_true_iff, (res_eqb_spec _ _ perr_eqb_spec view_eqb_spec).
+    split.
+    + intros [[[H1 H2] H3] H4]. repeat split; try tauto.
+      * intros ->. destruct H1; [discriminate | assumption].
+      * intro W. destruct H2; [congruence | assumption].
+    + intros [H1 [H2 [H3 H4]]]. repeat split; try tauto.
+      * destruct via; [right; auto | left; reflexivity].
+      * destruct (wf_viewb v); [right; auto | left; reflexivity].
+  - destruct read as [v| |]; [| split; [intros _ v' [=] | reflexivity]
+                              | split; [intros _ v' [=] | reflexivity]].
+    rewrite !andb_true_iff. split.
+    + intros [[[H1 H2] H3] H4] v' [= <-]. tauto.
+    + intro H. specialize (H v eq_refl). tauto.
+  - rewrite !andb_true_iff, bytes_eqb_spec, eqb_iff, bytes_eqb_spec, operation_eqb_spec.
+    unfold op_res_eqb, wf_op.
+    rewrite !orb_true_iff, !negb_true_iff, (res_eqb_spec _ _ perr_eqb_spec operation_eqb_spec).
+    split.
+    + intros [[H2 H3] H4]. repeat split; try tauto.
+      intro W. destruct H2; [congruence | assumption].
+    + intros [H2 [H3 H4]]. repeat split; try tauto.
+      destruct (wf_opb o); [right; auto | left; reflexivity].
+  - tauto.
+Qed.
+
+Lemma view_id_collision (H : bytes -> bytes) (v1 v2 : view) :
+  view_enc_wfb v1 = true -> view_enc_wfb v2 = true ->
+  H (enc_view v1) = H (enc_view v2) ->
+  v1 = v2 \/ (enc_view v1 <> enc_view v2 /\ H (enc_view v1) = H (enc_view v2)).
+Proof.
+  intros W1 W2. apply (id_collision_is_hash_collision c_view H c_view_ok);
+    apply view_enc_wfb_spec; assumption.
+Qed.
+
+Lemma op_id_collision (H : bytes -> bytes) (o1 o2 : operation) :
+  op_enc_wfb o1 = true -> op_enc_wfb o2 = true ->
+  H (enc_operation o1) = H (enc_operation o2) ->
+  o1 = o2 \/ (enc_operation o1 <> enc_operation o2 /\ H (enc_operation o1) = H (enc_operation o2)).
+Proof.
+  intros W1 W2. apply (id_collision_is_hash_collision c_operation H c_operation_ok);
+    apply op_enc_wfb_spec; assumption.
+Qed.
+
+Lemma absent_local_refuted :
+  exists v, wf_viewb v = false /\ view_from_proto (view_to_proto v) <> Ok v.
+Proof.
+  exists (mk_view [] [([97], absent)] [] [] [] [] []). split; [reflexivity|].
+  rewrite (proj1 absent_local_not_roundtrip). discriminate.
 Qed.
